@@ -387,6 +387,66 @@ func vC03Sweep(c *vCtx, maxN int) {
 	c.Bound = fmt.Sprintf("sweep sizes 1..%d", maxN)
 }
 
+// vC03Runes: the token alphabet itself, exhaustively. For EVERY Unicode scalar value r in
+// [lo, hi] (and, with marks, for every letter x combining mark pair) a one-document corpus
+// "k <text>" is searched with the raw text, with its reference normal form
+// lower(NFKC(text)) and with its upper-cased form; a hit is expected exactly when the
+// reference token sets intersect, and the document "k <normal form>" must be found by the
+// raw text under the same rule.
+func vC03Runes(c *vCtx, lo, hi rune, marks bool) {
+	cfg := fmt.Sprintf("bm25 runes %X..%X marks=%v", lo, hi, marks)
+	judge := func(text string) {
+		nf := strings.ToLower(norm.NFKC.String(text))
+		for _, pair := range [][2]string{{text, text}, {text, nf}, {nf, text}, {text, strings.ToUpper(text)}, {strings.ToUpper(nf), text}} {
+			doc, q := "k "+pair[0], pair[1]
+			c.Evaluations++
+			dt, qt := vRefTokens(doc), vRefTokens(q)
+			want := false
+			for _, a := range dt {
+				for _, b := range qt {
+					want = want || a == b
+				}
+			}
+			ix := NewBM25SearchIndex()
+			if err := ix.Add(1, doc); err != nil {
+				c.Violation("add-error", "runes", cfg, []string{fmt.Sprintf("Add(1,%q)", doc)}, err.Error())
+				continue
+			}
+			res, err := ix.NewSearch().WithQuery(q).WithK(-1).Execute()
+			if err != nil {
+				c.Violation("search-error", "runes", cfg, []string{fmt.Sprintf("Add(1,%q)", doc)}, err.Error())
+				continue
+			}
+			if (len(res) == 1) != want || len(res) > 1 {
+				c.Violation("wrong-token-matching", "", cfg, []string{fmt.Sprintf("Add(1,%q)", doc)}, fmt.Sprintf("query %q (%U): %d hits, reference tokens doc=%q query=%q => match=%v", q, []rune(q), len(res), dt, qt, want))
+			}
+			if want && nf != text {
+				c.Nontrivial(cfg + text)
+			}
+		}
+		c.Traces++
+	}
+	for r := lo; r <= hi; r++ {
+		if r >= 0xD800 && r <= 0xDFFF {
+			continue
+		}
+		if r%4096 == 0 && c.Expired() {
+			c.Bound = fmt.Sprintf("runes %X..%X", lo, r-1)
+			return
+		}
+		if !marks {
+			judge(string(r))
+			continue
+		}
+		for m := rune(0x300); m <= 0x36F; m++ {
+			judge(string([]rune{r, m}))
+		}
+	}
+	c.NewState(cfg)
+	c.Bound = fmt.Sprintf("runes %X..%X", lo, hi)
+	c.Sample(cfg + ": one-document corpus per text; raw / normal-form / upper-cased query and document")
+}
+
 func init() {
 	vRegister(&vCheck{
 		ID: "C03", Level: "model_checking", Engine: "histmc",
@@ -411,9 +471,27 @@ func init() {
 				maxN = 300
 			}
 			sh = append(sh, vShard{Name: "bm25/sweep", Run: func(c *vCtx) { vC03Sweep(c, maxN) }})
+			// every Unicode scalar value as a token (8 shards), and letter x combining mark
+			for i := 0; i < 8; i++ {
+				lo, hi := rune(i*0x6000), rune((i+1)*0x6000-1) // 0..0x2FFFF: BMP, SMP, SIP
+				sh = append(sh, vShard{Name: fmt.Sprintf("bm25/runes/%X", lo), Run: func(c *vCtx) { vC03Runes(c, lo, hi, false) }})
+			}
+			if tier == "thorough" {
+				sh = append(sh, vShard{Name: "bm25/runes/30000", Run: func(c *vCtx) { vC03Runes(c, 0x30000, 0x10FFFF, false) }})
+			}
+			sh = append(sh, vShard{Name: "bm25/marks/latin", Run: func(c *vCtx) { vC03Runes(c, 0x41, 0x24F, true) }})
+			sh = append(sh, vShard{Name: "bm25/marks/greek-cyrillic", Run: func(c *vCtx) { vC03Runes(c, 0x370, 0x4FF, true) }})
 			return sh
 		},
 		Replay: func(c *vCtx, v *vViolation) bool {
+			if strings.HasPrefix(v.Config, "bm25 runes ") {
+				var lo, hi rune
+				var marks bool
+				fmt.Sscanf(v.Config, "bm25 runes %X..%X marks=%t", &lo, &hi, &marks)
+				vC03Runes(c, lo, hi, marks)
+				_, ok := c.viol[v.Sig()]
+				return ok
+			}
 			if strings.HasPrefix(v.Config, "bm25 sweep n=") {
 				var n int
 				fmt.Sscanf(v.Config, "bm25 sweep n=%d", &n)
